@@ -158,8 +158,15 @@ def owner_of(line):
 
 # ------------------------------------------------------------------------------------------ proof side
 
+PROP_MODULES = {"C07": ["C07", "C07Num", "C07Final"], "C09": ["C09", "C09Final"], "C10": ["C10", "C10Num"]}
+
+
+def modules_of(pid):
+    return ["JL.Props." + m for m in PROP_MODULES.get(pid, [pid])]
+
+
 AUDIT_TEMPLATE = """import Lean
-import JL.Props.%(pid)s
+%(imports)s
 open Lean Elab Command
 elab "#audit_ns " ns:ident : command => do
   let env ← getEnv
@@ -187,7 +194,7 @@ def strip_lean_comments(src):
 def proof_side(pid, tier):
     """returns dict(ok, obligations=[names], discharged=[names], problems=[...], build_log)"""
     res = dict(ok=False, obligations=[], discharged=[], problems=[], axioms={})
-    ok, out = jl.lake_build(["JL.Props." + pid, "jldrv"])
+    ok, out = jl.lake_build(modules_of(pid) + ["jldrv"])
     if not ok:
         res["problems"].append("lake build JL.Props.%s failed:\n%s" % (pid, out[-3000:]))
         return res
@@ -201,7 +208,7 @@ def proof_side(pid, tier):
                         res["problems"].append("forbidden construct in %s: %s" % (f, ln.strip()[:80]))
     os.makedirs(os.path.join(jl.BUILD, "tmp"), exist_ok=True)
     af = os.path.join(jl.BUILD, "tmp", "audit_%s.lean" % pid)
-    open(af, "w").write(AUDIT_TEMPLATE % dict(pid=pid))
+    open(af, "w").write(AUDIT_TEMPLATE % dict(pid=pid, imports="\n".join("import " + m for m in modules_of(pid))))
     rc, out = jl.sh(["lake", "env", "lean", af], cwd=jl.LEAN, timeout=1800)
     for m in re.finditer(r"THEOREM (\S+) AXIOMS \[(.*?)\]", out):
         name = m.group(1)
@@ -217,7 +224,7 @@ def proof_side(pid, tier):
     if rc != 0 or not res["obligations"]:
         res["problems"].append("axiom audit failed (rc=%s): %s" % (rc, out[-1500:]))
     if tier == "thorough":
-        rc, out = jl.sh(["lake", "env", "leanchecker", "JL.Props." + pid], cwd=jl.LEAN, timeout=3600)
+        rc, out = jl.sh(["lake", "env", "leanchecker"] + modules_of(pid), cwd=jl.LEAN, timeout=3600)
         res["leanchecker"] = "ok" if rc == 0 else "FAILED: " + out[-500:]
         if rc != 0:
             res["problems"].append("leanchecker rejected JL.Props.%s: %s" % (pid, out[-500:]))
@@ -716,7 +723,7 @@ def main():
 
     wall = time.time() - t0
     cov = dict(obligations=len(proof["obligations"]), discharged=len(proof["discharged"]),
-               checker_cmd="cd /verif/lean && lake build JL.Props.%s && lake env lean <audit: #print-axioms of every theorem in namespace JL.Props.%s>%s" % (pid, pid, " && lake env leanchecker JL.Props.%s" % pid if tier == "thorough" else ""),
+               checker_cmd="cd /verif/lean && lake build %s && lake env lean <audit: collectAxioms of every theorem in namespace JL.Props.%s>%s" % (" ".join(modules_of(pid)), pid, " && lake env leanchecker " + " ".join(modules_of(pid)) if tier == "thorough" else ""),
                trusted_base=TRUSTED_BASE, theorems=proof["obligations"], axioms_used=sorted({a for v in proof["axioms"].values() for a in v}),
                evaluations=ex.evaluations if ex else 0, distinct_nontrivial=ex.nontrivial if ex else 0,
                rule="cases are wire lines (command + JSON values); distinct = by exact wire text; non-trivial = an `apply` whose rule is a recognised operation (C02: any non-null literal) or a helper/primitive call",
